@@ -148,7 +148,11 @@ class C13(Property):
         "Flatland.C13.Proofs.fqName_injective",
         "Flatland.Path.Lemmas.tokenize_segs",
         "Flatland.Path.Lemmas.pyInt_natStr",
+        # k4 (Proofs/C13Unspellable): KF-C13-b at the first level, for every tree
+        "Flatland.C13.Proofs.fqName_empty_top",
+        "Flatland.C13.Proofs.C13_empty_name_fails_top_partial",
     ]
+    extra_proof_modules = ["Proofs.C13Unspellable"]
     generated_obligations = []
     trusted_base = [
         "Python's int(str) / str(int) and `re` semantics of the two pinned regexes are reproduced as executable Lean "
@@ -172,7 +176,9 @@ class C13(Property):
         "child on the way is stored under its own name (find_fq_iff; pathOK_of_find_fq: a successful round trip forces "
         "every lookup on the way to hit its own child); KF-C13-c is thereby a general theorem (C13_key_mismatch_fails: "
         "every spellable, non-addressable position breaks the law from every start; the old witness is an instance, "
-        "C13_full_fails_key_general). NOT proved necessary: the two unspellable classes (a Dict field named '' — KF-C13-b, "
+        "C13_full_fails_key_general). KF-C13-b at the first level is a general theorem too (k4, C13_empty_name_fails_top_partial: in "
+        "EVERY tree a child named '' directly below a non-sequence root has fq_name() '/', which finds the root, from "
+        "every start). NOT proved necessary in general: the two unspellable classes (a Dict field named '' — KF-C13-b, "
         "C13_full_fails; anything below a name ending in a backslash — KF-C13-a, C13_full_fails_backslash) are still "
         "refuted by one witness each, because the converse there needs the tokenizer on arbitrary (ill-formed) emitted "
         "strings; the Lean runner re-checks the iff on every spellable position of every generated tree and the "
